@@ -30,4 +30,34 @@ def andNot (T : IntTy) (x y : Int) : Int := T.and x (T.not y)
 def rem (T : IntTy) (x y : Int) : Int := T.wrap (Int.tmod x y)
 
 end IntTy
+
+/-! ## `math/bits` helpers and builtins that rewrites of safe_math.go use (translator subset, extension round 6)
+
+`bits.Len*`, `bits.LeadingZeros*`, `bits.TrailingZeros*` (argument: the non-negative value of an unsigned type),
+`bits.Add64` / `bits.Sub64` (sum and carry-out / difference and borrow-out), the builtins `min` / `max`.  Validated
+against the real functions by `raw len64 / lz64 / tz64` and `raw64 add / sub` request lines. -/
+
+/-- `bits.Len64(x)`: the number of bits needed to represent `x ≥ 0` (0 for 0) -/
+def bitLen (x : Int) : Int := if x ≤ 0 then 0 else (Nat.log2 x.toNat : Int) + 1
+
+/-- `bits.LeadingZeros<w>(x)` -/
+def leadingZeros (w : Nat) (x : Int) : Int := (w : Int) - bitLen x
+
+def trailingZerosAux : Nat → Nat → Nat
+  | 0, _ => 0
+  | fuel + 1, n => if n % 2 = 1 then 0 else trailingZerosAux fuel (n / 2) + 1
+
+/-- `bits.TrailingZeros<w>(x)` (`w` for `x = 0`) -/
+def trailingZeros (w : Nat) (x : Int) : Int := if x ≤ 0 then w else (trailingZerosAux w x.toNat : Int)
+
+/-- `bits.Add64(x, y, carry)` = (sum, carryOut) -/
+def add64 (x y c : Int) : Int × Int := ((x + y + c) % 2 ^ 64, (x + y + c) / 2 ^ 64)
+
+/-- `bits.Sub64(x, y, borrow)` = (diff, borrowOut) -/
+def sub64 (x y b : Int) : Int × Int := ((x - y - b) % 2 ^ 64, if x - y - b < 0 then 1 else 0)
+
+/-- builtin `min` / `max` on integers -/
+def imin (a b : Int) : Int := if a ≤ b then a else b
+def imax (a b : Int) : Int := if a ≤ b then b else a
+
 end Hive.GoInt
